@@ -49,6 +49,12 @@ def c10_unit(c):
     return None
 
 
+def c12_unit(c):
+    if c.get("fn") == "crossings" and c.get("count_impl") != c.get("count_naive"):
+        return "the crossing counter reports %d crossings for an order that has %d (layer widths %s)" % (c["count_impl"], c["count_naive"], c.get("widths"))
+    return None
+
+
 PROPS = {
     "C01": dict(units=["p1greedy", "p1dfs"], n_units=dict(quick=1500, thorough=20000), trace_gen="C02", oracle="C01", relevant=rel({s: set() for s in list(range(0, 9)) + [15, 16]}),
                 trace_env={"VH_DEEP": "1"}, n_trace=dict(quick=96, thorough=800), n_search=dict(quick=1500, thorough=40000)),
@@ -76,9 +82,9 @@ PROPS = {
                 n_trace=dict(quick=200, thorough=2000), n_search=dict(quick=1500, thorough=20000)),
     "C11": dict(trace_gen="C11", oracle="C11", relevant=rel({3: STRUCT, 4: LAYER}),
                 n_trace=dict(quick=200, thorough=2000), n_search=dict(quick=3000, thorough=60000)),
-    "C12": dict(trace_gen="C12", oracle="C12", relevant=rel({5: POS | STRUCT, 6: XY, 7: ROUTE, 9: {1, 2}, 13: {0, 1}, 15: ALLF | {0}, 16: {2, 3, 4}}),
+    "C12": dict(units=["crossings"], n_units=dict(quick=240, thorough=4000), unit_classify=c12_unit, trace_gen="C12", oracle="C12", relevant=rel({5: POS | STRUCT, 6: XY, 7: ROUTE, 9: {1, 2}, 13: {0, 1}, 15: ALLF | {0}, 16: {2, 3, 4}}),
                 trace_env={"VH_DEEP": "1"}, n_trace=dict(quick=96, thorough=800), n_search=dict(quick=1500, thorough=30000)),
-    "C13": dict(trace_gen="C13", oracle="C13", relevant=rel({4: LAYER, 5: POS | STRUCT, 13: {0, 1}, 15: ALLF | {0}, 16: {4}}),
+    "C13": dict(units=["crossings"], n_units=dict(quick=120, thorough=2000), unit_classify=c12_unit, trace_gen="C13", oracle="C13", relevant=rel({4: LAYER, 5: POS | STRUCT, 13: {0, 1}, 15: ALLF | {0}, 16: {4}}),
                 trace_env={"VH_DEEP": "1"}, n_trace=dict(quick=96, thorough=800), n_search=dict(quick=2000, thorough=40000)),
     "C14": dict(units=["p1greedy", "p1dfs"], n_units=dict(quick=1500, thorough=20000), trace_gen="C14", oracle="C14", relevant=rel({2: STRUCT, 3: STRUCT, 8: STRUCT}),
                 n_trace=dict(quick=200, thorough=2000), n_search=dict(quick=3000, thorough=60000)),
@@ -105,15 +111,20 @@ def sh(cmd, cwd=None, timeout=None):
 
 
 def _coq_shards(run, udir, pattern, regex):
-    """runs coqc on every shard in parallel; returns the list of failing indices (or None when one could not be evaluated)"""
+    """runs coqc on every shard (bounded parallelism, once per directory); returns the list of failing indices
+    (or None when one could not be evaluated)"""
     import glob as _g
-    procs = [(f, subprocess.Popen(f"ulimit -v 12000000; timeout 1500 coqc -Q {COQ} Autog {os.path.basename(f)}", cwd=udir, shell=True,
-                                  stdout=subprocess.PIPE, stderr=subprocess.STDOUT, text=True)) for f in sorted(_g.glob(os.path.join(udir, pattern)))]
+    from __main__ import coq_pool
+    cache = run.__dict__.setdefault("_shard_out", {})
+    files = sorted(_g.glob(os.path.join(udir, pattern)))
+    if (udir, pattern) not in cache:
+        cache[(udir, pattern)] = coq_pool(files, udir)
+    res = cache[(udir, pattern)]
     bad = []
-    for f, p in procs:
-        out = p.communicate()[0]
+    for f in files:
+        rc, out = res[f]
         m = re.search(regex, out, re.S)
-        if p.returncode != 0 or not m:
+        if rc != 0 or not m:
             run.violation(f"the model could not be evaluated on {os.path.basename(f)}: " + out[-600:], {"kind": "correspondence", "step": "coqc", "output": out[-3000:]}, False)
             return None
         bad += [int(x) for x in re.findall(r"(\d+)%nat", m.group(1))]
